@@ -36,6 +36,133 @@ CHECKS = {
              "credentials, engine id/boots/time of the last accepted agent message, flags, PDU type, bulk parameters, id ranges, OIDs in order "
              "bound to NULL, exactly one datagram per request. Buffer pool exercised under Miri (data races) and ASan.",
         note=TB + " Histories are sampled, not exhausted."),
+
+    "C04": dict(
+        cat="fault_enumeration", ref="DESIGN.md section 4 C04",
+        tech="runtime monitoring: fault enumeration at a scripted agent (drop/duplicate/delay/reorder/rewrite/truncate) with unique serials per datagram; offline-style checker = executable receive-loop specification over the modelled socket queue",
+        text="Scripts of 1..4 consecutive requests with per-request lists of injected datagrams are enumerated (exhaustively for 1 request x <= 2/3 "
+             "datagrams and 2-3 requests over reduced sets, randomly for 3..4 requests) for v1, v2c, v3 noAuth and auth+priv, sync and async, "
+             "get/get_many/getnext/getbulk; every datagram carries a unique INTEGER so the delivered value names the datagram that was accepted; "
+             "the expected outcome (deliver this serial / SnmpDecodeError / TimeoutError) is computed from the ids actually seen on the wire. "
+             "A mismatch is re-run twice with a long timeout before it counts.",
+        note=TB + " Kernel-level reordering cannot be forced on loopback; reordering is produced by the agent's send order."),
+    "C05": dict(
+        cat="exploration", ref="DESIGN.md section 4 C05",
+        tech="runtime monitoring: reference-model oracle (RFC 3416 agent over a sorted MIB vs list returned by the real iterators), exhaustive over all subsets of a 9-OID universe",
+        text="A compliant reference agent serves every one of the 512 subsets of a 9-OID universe built around the bases (byte-prefix siblings, "
+             "multi-octet arcs, entries before/after, base itself a leaf) for 8 bases, plus random MIBs up to 80 entries, across "
+             "max_repetitions x agent cap x v1/v2c/v3 x sync/async x getnext/getbulk/fetch; the returned list must equal the model's subtree.",
+        note=TB + " MIB values are never NULL."),
+    "C06": dict(
+        cat="exploration", ref="DESIGN.md section 4 C06",
+        tech="runtime monitoring: online trace checker (executable walk specification) over requests seen by a hostile scripted agent and (oid,value) pairs yielded; exhaustive reply enumeration at depth 1 over a 35-varbind alphabet, bounded-depth beyond",
+        text="Agent strategies are arbitrary reply sequences over 7 OIDs x 5 value kinds: exhaustive for first replies of 0..2 (quick) / 0..3 "
+             "(thorough) varbinds, depth 2 over continuing first replies, loop-forever agents, random to depth 8; getnext and getbulk, v1/v2c/v3, "
+             "sync/async. The checker enforces containment, received order, strictly increasing yields, continuation from the last accepted OID, "
+             "no request or yield after a stop condition, and termination within len(script)+1 requests (a logical bound).",
+        note=TB + " Depth >= 3 is sampled. Where the statement leaves a choice every consistent outcome is accepted."),
+    "C07": dict(
+        cat="exploration", ref="DESIGN.md section 4 C07",
+        tech="runtime monitoring: oracle written from the statement over scripted replies, exhaustive over kind-vectors up to length 4",
+        text="All 781 vectors of varbind kinds {value, NULL, noSuchObject, noSuchInstance, endOfMibView} of length 0..4 (random for 5..6), with "
+             "requested/foreign/duplicate OIDs and values of every type, plus Report-in-place-of-response and silence, for get and get_many x "
+             "v1/v2c/v3 (noAuth/auth/DES/AES) x sync/async: return value or exception class must be the documented one.",
+        note=TB),
+    "C08": dict(
+        cat="exploration", ref="DESIGN.md section 4 C08",
+        tech="runtime monitoring: denotation oracle over generated OID strings (decode of the datagram actually sent vs the OID the text denotes), Rust core at 10^5-10^7 strings and every Python entry point end-to-end",
+        text="Strings over digits/dots/signs/blanks/letters (valid OIDs with arcs at every base-128 boundary up to 2^32-1 and 2..128 arcs; 17 "
+             "malformed classes) go through SnmpOid::try_from and through get/get_many/getnext/getbulk/fetch; a must-accept string has to be "
+             "sent as exactly its X.690 encoding and printed back identically; any other string is either refused before anything is sent or "
+             "sent as exactly what it denotes - a datagram carrying any other OID is the violation.",
+        note=TB),
+    "C09": dict(
+        cat="exploration", ref="DESIGN.md section 4 C09",
+        tech="runtime monitoring: every authenticated datagram's HMAC-96 recomputed at the agent with hmac/hashlib under the reference-localized key; sign() differential at every message size under rel/ASan/Miri",
+        text="v3 traffic over {MD5,SHA-1} x {none,DES,AES} x {password,master,localized} with engine ids 5..32/200 octets, user names 0..200, "
+             "boots/time 1..4 octets and request sizes across the length-form boundaries so the auth-parameter offset takes > 100 distinct "
+             "values, on pooled buffers after arbitrary traffic; each datagram's MAC is recomputed independently; flag set iff a key is held. "
+             "Rig R signs random messages of every size 60..4080.",
+        note=TB),
+    "C10": dict(
+        cat="fault_enumeration", ref="DESIGN.md section 4 C10",
+        tech="runtime monitoring: full forgery matrix injected by the scripted agent ahead of the genuine reply, unique serials identify the accepted datagram",
+        text="For every auth-holding configuration the complete matrix MAC {valid, zero, random, empty, 11/13 octets, one bit flipped in each "
+             "octet} x auth flag x priv flag x {GetResponse, Report} x {encrypted, plaintext} is injected before the genuine reply; only a "
+             "correctly MACed, auth-flagged (and, with privacy, encrypted) message may be the one delivered. On the pinned tree the incoming "
+             "MAC and security level are not verified at all: recorded as known findings, one per forgery class; any other wrongly accepted "
+             "or wrongly dropped reply is still a VIOLATION.",
+        note=TB + " Reports are not judged (the statement allows them unauthenticated)."),
+    "C11": dict(
+        cat="exploration", ref="DESIGN.md section 4 C11",
+        tech="runtime monitoring: every msgData decrypted by independent DES-CBC/AES-CFB references and strict-parsed; history workloads on sessions and directly on PrivKey under rel/dbg/ASan/Miri",
+        text="Sessions with DES/AES x digests x key types x boots/time run histories of sends, timeouts, receives of agent-encrypted replies "
+             "(random salts, arbitrary padding) and oversized requests; each msgData must decrypt - key localized by the reference, IV from the "
+             "message's own salt/boots/time - to exactly the expected scoped PDU plus < 1 block; values from agent-encrypted replies must match "
+             "the MIB. The same histories run directly on PrivKey under ASan and Miri.",
+        note=TB),
+    "C12": dict(
+        cat="exploration", ref="DESIGN.md section 4 C12",
+        tech="runtime monitoring: hashlib oracle for password->master->localized derivations; installed keys observed through MAC/decryption of real traffic; exception-class oracle on malformed key material",
+        text="Passwords of length 1..2^21 (dividing and not dividing 2^20) x engine ids 0..32 octets x both digests against RFC 3414 A.2 in "
+             "hashlib; sessions with password/master/localized keys judged through their MACs and ciphertexts; ~3x10^4 malformed constructor / "
+             "set_keys / helper calls (key lengths 0..64, algorithm codes 0..255, empty password) must end in acceptance or an ordinary "
+             "exception, in release and overflow-checking builds.",
+        note=TB),
+    "C13": dict(
+        cat="exploration", ref="DESIGN.md section 4 C13",
+        tech="runtime monitoring: history checker at the agent: every request must carry the engine id learned/configured and the boots/time of the last accepted agent message, MAC and ciphertext valid under keys localized to that engine id",
+        text="A scripted v3 engine changes boots/time on every reply; sessions with and without engine id x {noAuth,MD5,SHA-1} x {none,DES,AES} "
+             "x key types x sync/async go through context entry, explicit refresh and mixed requests with non-matching datagrams (other "
+             "boots/time) interleaved; > 100 configurations and ~2x10^4 datagrams per quick run are judged.",
+        note=TB),
+    "C14": dict(
+        cat="exploration", ref="DESIGN.md section 4 C14",
+        tech="runtime monitoring: offline history checker over all datagrams of a key installation (salt uniqueness, +1 monotonicity mod 2^32/2^64, boots prefix, no plaintext needle in clear); counter wrap reached through a verif hook",
+        text="Per key installation 1.5x10^3 (quick) / 2.5x10^4 (thorough) mixed requests using the send halves, interleaved with receives that "
+             "change boots, timeouts and set_keys(); the checker requires 8-octet salts, pairwise distinct, advancing by exactly one, DES "
+             "salts prefixed by the header's boots, priv flag set, ciphertext decryptable, and the request's OID encoding absent from the "
+             "datagram. Wrap-around at 2^32/2^64 is crossed through verif::set_salt in release and overflow-checking builds.",
+        note=TB + " 2^32 messages cannot be sent; uniqueness beyond the run length rests on the counter structure observed."),
+    "C15": dict(
+        cat="exploration", ref="DESIGN.md section 4 C15",
+        tech="runtime monitoring: differential round-trip oracle (independent minimal DER encoder + strict TLV walker) - exhaustive for every INTEGER of 1..3 content octets, boundary neighbourhoods, random; rel/dbg/ASan/Miri",
+        text="Every INTEGER in -2^23..2^23-1 (16.7M values, exhaustive), +-N around every +-2^(8k-1)/+-2^(8k), i64::MIN/MAX and random values; "
+             "OIDs; NULL; OCTET STRING fields of every length 0..4076; random v1/v2c/v3 Get/GetNext/GetBulk messages: encoding must equal the "
+             "independent minimal encoding, pass the strict walker, and decode back to the original with nothing left.",
+        note=TB + " Independent encoder/walker live in rharness/src/common.rs."),
+    "C16": dict(
+        cat="exploration", ref="DESIGN.md section 4 C16",
+        tech="runtime monitoring: metamorphic oracle from_ber(x||s) == (s, value(x)) for every typed decoder; trailing-byte and nesting-tamper rejection for message layers; end-to-end position independence",
+        text="For each of 18 decoders x ranges over model-generated encodings that decode alone and s over empty/one octet/valid TLV/random/"
+             "digit suffixes: value and leftover must be independent of s. Every corpus message with trailing bytes, and every short-form inner "
+             "length raised past its parent while the bytes exist, must be rejected. End-to-end: a value followed by extra octets in its varbind "
+             "and by further varbinds is delivered unchanged or the reply is rejected.",
+        note=TB + " Values are rendered through the verif hook typed_from_ber/project."),
+    "C17": dict(
+        cat="exploration", ref="DESIGN.md section 4 C17",
+        tech="runtime monitoring: octet-by-octet request-size sweep with an independent size calculator as oracle; shadow-model monitor over random Buffer operation sequences natively, under ASan and Miri",
+        text="get_many OID lists are constructed so the reference-encoded request takes every length around every nesting-level boundary and "
+             "the 4080-octet limit (thorough: every length 40..4400) for v1/v2c/v3 noAuth/auth/DES/AES, plus communities and user names up to "
+             "4100 octets: too big -> SnmpEncodeError and nothing on the wire, fitting -> sent, strict-equal, exact size; the next request is "
+             "normal. ~10^6 random Buffer operations against a Vec shadow, also under ASan and Miri.",
+        note=TB + " With privacy a 48-octet band below the limit accepts either outcome."),
+    "C18": dict(
+        cat="fault_enumeration", ref="DESIGN.md section 4 C18",
+        tech="runtime monitoring: arrival-schedule enumeration at the scripted agent with wall-clock oracle guarded by a scheduler-drift probe, the agent's own send log and triple serial confirmation",
+        text="Schedules of k in {0,1,3,6(,2,12)} non-matching datagrams spaced 0.6 x timeout apart, optionally followed by the matching reply "
+             "after the deadline (must not be delivered) or strays at 0.12 x timeout then the reply at 0.75 x timeout (must be delivered), for "
+             "sync/async x v1/v2c/v3: the call must end within timeout + 0.25 s with the right outcome. A suspected violation counts only if "
+             "it repeats 3/3 with low measured scheduler drift and the agent's datagrams on schedule.",
+        note=TB + " Wall-clock property: the verdict is guarded, not exact; guards firing make a case inconclusive."),
+    "C19": dict(
+        cat="exploration", ref="DESIGN.md section 4 C19",
+        tech="runtime monitoring: invariant assertions on hooked policer state over generated call-time sequences; exhaustive phase space for small intervals with the real implementation as transition function; virtual-clock sessions with arrivals stamped at the agent",
+        text="The real RPSPolicer is driven with ~4x10^5 generated call times (gaps 0, 1 ns, d-1, d, d+1, 2d, 7.3d, 10^6 d, random; 8 rates) "
+             "checking every delay in (0,d] and every window of releases; for d in {1,2,3,7,10,64} ns every (phase, gap) transition is "
+             "executed and the local invariants that imply the window bound are asserted on _prev; rate-limited sync/async sessions under a "
+             "virtual clock must show the same bound on agent-observed arrivals for every request path; invalid rates raise ValueError.",
+        note=TB + " The exhaustive part covers small intervals only; larger ones rely on translation invariance plus sampling."),
 }
 
 NOT_YET = "check not built yet in this session (work in progress; see DESIGN.md for the planned monitor)"
